@@ -127,6 +127,10 @@ type ingressClassConfig struct {
 }
 
 func (c *converter) NeedFullSync() bool {
+	// added ingress are not linked to the hosts and backends they reference yet,
+	// and such links need to be in place before the other converters look for
+	// changes in the resources they track.
+	c.trackAddedIngress()
 	needFullSync := c.defaultCrtNeedFullSync() || c.globalConfigNeedFullSync()
 	if needFullSync && c.defaultCrt.SHA1Hash == c.options.FakeCrtFile.SHA1Hash {
 		c.logger.Info("using auto generated fake certificate")
